@@ -591,8 +591,8 @@ func c09RFCases(thorough bool) []c09RFCase {
 		R := c09RFRanges(L)
 		for pi := range c09RFPresets {
 			maxK := 2
-			if thorough {
-				maxK = 3
+			if thorough && pi < 3 {
+				maxK = 3 // every three-range plan for the presets zero / split / split+ping
 			}
 			c09SeqPlans(L, R, maxK, func(dgs [][]QUICCryptoRange) bool {
 				cs = append(cs, c09RFCase{L, pi, dgs})
